@@ -23,6 +23,7 @@ WITNESS = {
     "standin_validator": ("src/schema/validator.rs", "batches of 1..1000 tuples x 3 columns, <= 1 bad tuple (8 kinds) at first/middle/last position"),
     "standin_pagination": ("src/protocol/handler.rs", "pagination: len <= 6, limit/offset in {None,0..8}; sort: <= 4 rows from 11 mixed-kind values, both directions"),
     "standin_workers": ("src/code_generator/mod.rs", "20 programs covering every operator class x workers {2,3,4,8} vs 1 worker, 42-edge graph"),
+    "standin_value_laws": ("src/value/mod.rs", "all pairs and triples of ~85 representative values (strings <= 41 chars, vectors <= 33 elements) and ~100 tuples of length <= 2"),
     "standin_delete": ("src/storage_engine/mod.rs", "relations of 0..300 tuples x 7 delete batches mixing present/absent/repeated tuples"),
     "standin_histories_clean": ("src/storage_engine/mod.rs", "every clean insert/delete history of length <= 5 over 2 tuples, save, restart"),
     "standin_histories_dirty": ("src/storage_engine/mod.rs", "every history of length <= 3 over 2 tuples with a re-insert or an absent delete, save, restart"),
